@@ -1,5 +1,10 @@
 package yqlib
 
+import (
+	"io"
+	"strings"
+)
+
 // C18 — evaluation is deterministic and independent of earlier runs (sequential half; concurrency is outside).
 //
 // Inside one process image (the engine's post-init snapshot: operator table, lexer rule table, configured
@@ -52,4 +57,48 @@ func VerifC18History() {
 	}
 	verifAssert(okFresh == okAgain && verifEqStr(fresh, again), "C18/result-depends-on-history "+label+mode)
 	verifCover("C18/history/end")
+}
+
+var c18Texts = []string{"x: 1\n", "# only a comment\n# second line\n", "# c\nb: 2\n", "---\ny: 2\n", "", "a: 1\n---\n# mid\nb: 2\n"}
+
+func c18DecodeAll(dec Decoder, text string) string {
+	if err := dec.Init(strings.NewReader(text)); err != nil {
+		return "init-error"
+	}
+	out := ""
+	for i := 0; i < 6; i++ {
+		n, err := dec.Decode()
+		if err != nil {
+			if err == io.EOF {
+				return out + "EOF"
+			}
+			return out + "error"
+		}
+		out += "DOC[" + n.LeadingContent + "|" + vDumpFull(n) + "] "
+	}
+	return out + "TOO-MANY"
+}
+
+// VerifC18DecoderReuse: what a reused YAML decoder delivers for a file does not depend on which file it
+// decoded before (the decoder objects behind `load(...)` and eval-all are reused across files).
+func VerifC18DecoderReuse() {
+	prefs := NewDefaultYamlPreferences()
+	prefs.LeadingContentPreProcessing = verifChoice("leadingContentPreProcessing", 2) == 1
+	prefs.EvaluateTogether = verifChoice("evaluateTogether", 2) == 1
+	h1 := verifChoice("history1", len(c18Texts))
+	h2 := verifChoice("history2", len(c18Texts))
+	if h2 <= h1 {
+		return
+	}
+	t := verifChoice("text", len(c18Texts))
+	d1 := NewYamlDecoder(prefs)
+	_ = c18DecodeAll(d1, c18Texts[h1])
+	r1 := c18DecodeAll(d1, c18Texts[t])
+	d2 := NewYamlDecoder(prefs)
+	_ = c18DecodeAll(d2, c18Texts[h2])
+	r2 := c18DecodeAll(d2, c18Texts[t])
+	verifObserve("after-history-1", r1)
+	verifObserve("after-history-2", r2)
+	verifAssert(r1 == r2, "C18/decoder-result-depends-on-earlier-file")
+	verifCover("C18/decoder/end")
 }
